@@ -284,6 +284,11 @@ func (otx olvmTx) Validate(ctx *action.Context, signedTx action.SignedTx) (bool,
 	if memoNonce != tx.Nonce {
 		return false, errors.New("wrong memo for nonce")
 	}
+	// the memo is covered by the signature only through this comparison: another spelling of the same number
+	// ("07", "+7") would be the same signed transaction under another hash
+	if signedTx.Memo != strconv.FormatUint(tx.Nonce, 10) {
+		return false, errors.New("wrong memo for nonce")
+	}
 
 	return true, nil
 }
